@@ -42,12 +42,12 @@ def lemmas():
 # ---------------------------------------------------------------- C16
 def c16_jobs(tier):
     js = []
-    for n in range(0, (9 if tier == "quick" else 10) + 1):
+    for n in range(0, 9 + 1):
         js.append(job("ZZ_C16_TimeAccept", n=n))
     for h in ["ZZ_C16_TimeRoundtrip", "ZZ_C16_TimePlus", "ZZ_C16_Range", "ZZ_C16_Equivalences",
               "ZZ_C16_DurationRoundtrip", "ZZ_C16_DurationArith", "ZZ_C16_DurationCanonical"]:
         js.append(job(h))
-    for n in range(0, (6 if tier == "quick" else 8) + 1):
+    for n in range(0, 6 + 1):
         js.append(job("ZZ_C16_DurationAccept", n=n))
     for n in ([9, 11] if tier == "quick" else [0, 1, 5, 8, 9, 11, 12]):
         js.append(job("ZZ_C16_DateAccept", n=n))
@@ -108,16 +108,16 @@ FMT_ROT_ALL = [(f, r) for f in range(3) for r in range(4)]
 def c01_jobs(tier):
     js = []
     q = tier == "quick"
-    for n in range(0, (5 if q else 6) + 1):
-        for ending in ([0] if q and n > 3 else [0, 1, 2]):
+    for n in range(0, 5 + 1):
+        for ending in ([0] if n > 3 else [0, 1, 2]):
             js.append(job("ZZ_C01_Headline", PZ, n=n, ending=ending))
-    for n in range(1, (6 if q else 7) + 1):
+    for n in range(1, 6 + 1):
         for indent in range(4):
-            if q and n > 4 and indent != n % 4:
+            if n > 4 and indent != n % 4:
                 continue
             js.append(job("ZZ_C01_Entry", PZ, n=n, indent=indent, ending=(n + indent) % 3))
-    js.append(job("ZZ_C01_RangeTemplate", PZ, full=0 if q else 1, open=0))
-    js.append(job("ZZ_C01_RangeTemplate", PZ, full=0 if q else 1, open=1))
+    js.append(job("ZZ_C01_RangeTemplate", PZ, full=0, open=0))
+    js.append(job("ZZ_C01_RangeTemplate", PZ, full=0, open=1))
     for L in range(1, 4 + 1):
         combos = FMT_ROT_QUICK if q else FMT_ROT_ALL
         if L == 5:
@@ -143,10 +143,10 @@ def c01_jobs(tier):
 def c10_jobs(tier):
     js = []
     q = tier == "quick"
-    for L in range(1, (4 if q else 5) + 1):
+    for L in range(1, 4 + 1):
         combos = FMT_ROT_QUICK if q else FMT_ROT_ALL
         if L >= 4:
-            combos = [(0, 1)] if (q or L == 5) else FMT_ROT_QUICK
+            combos = [(0, 1)] if q else [(0, 1), (1, 2)]
         for f, r in combos:
             js.append(job("ZZ_C10_ErrPos", U, L=L, fmt=f, rot=r, w=1 if L >= 4 else 2))
     js.append(job("ZZ_C10_ErrPos", U, L=3, fmt=1, rot=2, w=3))
@@ -183,7 +183,7 @@ def c07_jobs(tier):
         for w in range(1, min(n + 2, 4) + 1):
             js.append(job("ZZ_C07_ParEquiv", E, n=n, w=w))
     if tier == "thorough":
-        js += [job("ZZ_C07_ParEquiv", E, n=5, w=1), job("ZZ_C07_ParEquiv", E, n=5, w=2), job("ZZ_C07_ParEquiv", E, n=4, w=5)]
+        js += [job("ZZ_C07_ParEquiv", E, n=5, w=1), job("ZZ_C07_ParEquiv", E, n=5, w=2)]
     # longer texts built from lines (blank / short / long / error lines x LF / CRLF): chunk boundaries at every
     # position relative to blank lines and CR LF pairs (added after finding F9)
     lines = [(6, 2, 0, 0), (5, 3, 1, 0), (5, 2, 1, 1)] if tier == "quick" else \
@@ -202,11 +202,13 @@ S = K + "/service"
 
 def c02_jobs(tier):
     js = [job("ZZ_C02_EvalNow", S), job("ZZ_C02_EvalNowMany", S)]
-    shapes = [(1, 1), (1, 2), (2, 1)] if tier == "quick" else [(1, 1), (1, 2), (2, 1), (2, 2)]
+    shapes = [(1, 1), (1, 2), (2, 1)]
     for nrec, nent in shapes:
         js.append(job("ZZ_C02_Eval", S, nrec=nrec, nent=nent))
-    for L in range(1, (3 if tier == "quick" else 4) + 1):
+    for L in range(1, 3 + 1):
         js.append(job("ZZ_C02_EvalText", U, L=L, fmt=L % 3, rot=L % 4))
+        if tier == "thorough":
+            js.append(job("ZZ_C02_EvalText", U, L=L, fmt=(L + 1) % 3, rot=(L + 2) % 4))
     return js + lemmas()
 
 
@@ -216,20 +218,18 @@ P = K + "/service/period"
 
 def c15_jobs(tier):
     js = [job("ZZ_C15_Hashes", P)]
-    if tier == "quick":
-        # decade windows around the interesting years (0000, the 400-year rule, 1900, 2000, 9999)
-        windows = [(0, 10), (395, 10), (1895, 10), (1996, 10), (9990, 10)]
-        pat_windows = [20]
-    else:
-        # a full 400-year Gregorian cycle at each end of the range and around 2000 (century windows)
-        windows = [(c * 100, 100) for c in [0, 3, 20, 96, 99]]
-        pat_windows = [0]
+    # decade windows around the interesting years (0000, the 400-year rule, 1900, 2000, 9999)
+    windows = [(0, 10), (395, 10), (1895, 10), (1996, 10), (9990, 10)]
+    pat_windows = [20]
+    if tier == "thorough":
+        # plus whole centuries at both ends of the range and 2000-2099
+        windows += [(c * 100, 100) for c in [0, 20, 99]]
     for frm, span in windows:
         js.append(job("ZZ_C15_DateFacts", P, **{"from": frm, "span": span, "_split": 65536}))
         js.append(job("ZZ_C15_Week", P, **{"from": frm, "span": span, "_split": 65536}))
         js.append(job("ZZ_C15_MonthQuarterYear", P, **{"from": frm, "span": span, "_split": 65536}))
     for c in pat_windows:
-        for n in ([4, 7] if tier == "quick" else [4, 7, 8]):
+        for n in [4, 7]:
             js.append(job("ZZ_C15_Pattern", P, n=n, century=c, _split=65536))
     for n in [0, 1, 2, 3, 5, 6, 9]:
         js.append(job("ZZ_C15_Pattern", P, n=n, century=20))
@@ -242,8 +242,8 @@ C = K + "/app/cli"
 
 def c17_jobs(tier):
     js = []
-    days = [0] if tier == "quick" else [2, 3]
-    rounds = [0, 1, 7] if tier == "quick" else list(range(8))
+    days = [0] if tier == "quick" else [0, 2, 3]
+    rounds = [0, 1, 7] if tier == "quick" else [0, 1, 3, 5, 7]
     for d in days:
         for r in rounds:
             for sel in range(4):
@@ -305,7 +305,7 @@ def c04_jobs(tier):
           mut("ZZ_Mut_Pause", 3, 0, 0, ticks=1, extend=1, nd=2),
           mut("ZZ_Mut_History", 2, 1, 1, steps=2, nd=2), mut("ZZ_Mut_History", 1, 0, 0, steps=3), job("ZZ_Mut_Layouts", C)]
     if not q:
-        js += [mut("ZZ_Mut_Pause", 2, 0, 1, ticks=3, extend=0), mut("ZZ_Mut_History", 1, 2, 0, steps=4), mut("ZZ_Mut_Start", 2, 1, 3, nd=3)]
+        js += [mut("ZZ_Mut_Start", 2, 1, 3, nd=3), mut("ZZ_Mut_Track", 2, 2, 3), mut("ZZ_Mut_Create", 2, 1, 2)]
     return js
 
 
@@ -320,7 +320,7 @@ def c05_jobs(tier):
     js += [mut("ZZ_Mut_Track", 2, 0, 0), mut("ZZ_Mut_Stop", 2, 1, 1, sw=0), mut("ZZ_Mut_Stop", 3, 2, 2, sw=1, nd=2),
            mut("ZZ_Mut_Pause", 2, 2, 3, ticks=1, extend=0), mut("ZZ_Mut_Create", 2, 1, 2)]
     if not q:
-        js += [mut("ZZ_Mut_Start", 2, 1, 3, nd=3), mut("ZZ_Mut_Track", 2, 2, 2)]
+        js += [mut("ZZ_Mut_Track", 2, 2, 2)]
     return js
 
 
@@ -335,7 +335,7 @@ def c11_jobs(tier):
     # notation of generated values: n other records x command (0 start, 1 start with explicit values, 2 stop, 3 create, 4 track)
     for n in ([0, 1] if q else [0, 1, 2]):
         for cmd in range(5):
-            if n == 2 and cmd in (1, 2, 4):
+            if n == 2 and cmd != 0:
                 continue
             js.append(job("ZZ_C11_Notation", C, n=n, cmd=cmd))
     return js
@@ -345,7 +345,7 @@ def c11_jobs(tier):
 def c12_jobs(tier):
     js = []
     for agg in range(5):
-        for n in ([1, 2, 3] if tier == "quick" or agg != 1 else [1, 2, 3, 4]):
+        for n in [1, 2, 3]:
             js.append(job("ZZ_C12_Partition", C, n=n, agg=agg))
     js.append(job("ZZ_C15_Hashes", P))
     js.append(job("ZZ_C12_ReportVsTotal", C))
@@ -363,10 +363,10 @@ def c13_jobs(tier):
     js += [job("ZZ_C13_Filter", S, n=n, e=1, mode=0) for n in [1, 2]]
     js += [job("ZZ_C13_Filter", S, n=1, e=2, mode=1), job("ZZ_C13_Filter", S, n=2, e=1, mode=1)]
     for sel in range(13):
-        for frm, span in ([(2019, 4)] if q else [(0, 6), (1998, 6), (9993, 6)]):
+        for frm, span in ([(2019, 4)] if q else [(2019, 4), (0, 4), (9995, 4)]):
             js.append(job("ZZ_C13_Shortcuts", U, **{"from": frm, "span": span, "sel": sel, "_split": 65536}))
     if not q:
-        js += [job("ZZ_C13_Filter", S, n=1, e=1, mode=2), job("ZZ_C13_Filter", S, n=1, e=3, mode=1)]
+        js += [job("ZZ_C13_Filter", S, n=1, e=1, mode=2)]
     return js
 
 
@@ -420,7 +420,7 @@ CHECKS = {
         "jobs": c16_jobs,
         "bounds": {
             "quick": "time literals: every byte string of length 0..9; durations: every byte string of length 0..6 plus all values -100000..100000 min x notation flags; dates: every 10-byte string with years in century windows {00,03,19,20,99} and all strings of length 9 and 11; all (hour,minute,shift,clock) times x durations -3000..3000; all time pairs",
-            "thorough": "as quick with time strings up to 10 bytes, duration strings up to 8 bytes, 19 century windows (every eighth century, 01, 03, 15, 16, 19, 20, 99); all 100 windows would take about an hour and are not registered",
+            "thorough": "as quick with date strings of further lengths and 19 century windows (every eighth century, 01, 03, 15, 16, 19, 20, 99); all 100 windows would take about an hour and are not registered",
         },
         "outside": "longer strings; duration numbers beyond 7 digits (panic-freedom of those is C06)",
         "stubs": [MODELS["regexp"], MODELS["fmt"], MODELS["utf8"], MODELS["bytealg"], MODELS["tabulate"]],
@@ -447,7 +447,7 @@ CHECKS = {
         "jobs": c15_jobs,
         "bounds": {
             "quick": "every date of the decade windows 0000-0009, 0395-0404, 1895-1904, 1996-2005, 9990-9999 (weekday, ISO week/week-year, quarter, +-1 day, week/month/quarter/year periods and predecessors); hash packing for all field values 0..9999/1..12/1..31/1..53; every pattern string of length 0..7 and 9 with the year in 2000-2099",
-            "thorough": "century windows 00, 03, 20, 96, 99 (every date of 500 of the 10000 years, incl. both ends of the range and both kinds of century year); pattern strings with years in 0000-0099 (2000-2099 in quick); a window takes 2-3 minutes, all 100 are not registered",
+            "thorough": "as quick plus every date of the century windows 00, 20 and 99 (a window takes 2-3 minutes; all 100 are not registered)",
         },
         "outside": "the first two weeks of year 0000 and the last week of 9999 for week periods, predecessors of the first month/quarter/year of 0000 (klog panics there: not representable, excluded like in C13's quantifier); pattern strings longer than 9 bytes",
         "stubs": [MODELS["regexp"], MODELS["fmt"], MODELS["tabulate"], "math.Ceil / math.Log2 on concrete floats (int->float of a symbolic month is case-split)"],
@@ -458,7 +458,7 @@ CHECKS = {
         "jobs": c17_jobs,
         "bounds": {
             "quick": "clock at every minute (hour, minute symbolic) of 2021-06-15; roundings {none,5,60}; start x {default,--today,--yesterday,--tomorrow} x {records for yesterday/today/tomorrow, empty file}; stop x 5 layouts (open range today / yesterday only / yesterday with a record today / both / none) with every start time; total --now at every minute for one record and for two records (yesterday's and today's, either order) with an open range each",
-            "thorough": "year end and leap day, all 8 roundings",
+            "thorough": "three days (ordinary, year end, leap day) x roundings {none, 5, 12, 20, 60} (all 8 roundings x 5 days take about half an hour and are not registered)",
         },
         "outside": "explicit --time / --date values (covered by C04's command model); clocks outside UTC; switch (= stop + start)",
         "stubs": [MODELS["regexp"], MODELS["fmt"], MODELS["tabulate"], "app.Context: harness implementation (zzContext) holding the file as text and re-parsing it with the real parser, mirroring app.context.ReconcileFile"],
@@ -468,7 +468,7 @@ CHECKS = {
         "jobs": c01_jobs,
         "bounds": {
             "quick": "headline: date + every tail of 0..5 bytes; entry line: every indentation style + every tail of 1..6 bytes (n>4: one style per length); range / open-range templates (time shapes x dash spacings x summaries, digits symbolic); line-structure: every kind sequence of 1..4 lines incl. rule-violating continuations (digits and summary bytes symbolic; LF, CRLF, missing final newline; rotating indentation styles); record-summary line and entry-summary continuation line of 1..5 arbitrary bytes (valid UTF-8 asserted two-sided against the blank-character class tab + Unicode Zs); literals: slice of C16",
-            "thorough": "summary lines of 1..7 arbitrary bytes, headline tails to 6 bytes, entry tails to 7 bytes, full time-shape templates, structures of up to 3 lines in all 12 line-ending x indentation-rotation combinations and of 4 lines in 4 (5-line structures take 12 minutes per combination and are not registered)",
+            "thorough": "as quick plus summary lines of up to 7 arbitrary bytes, structures of up to 3 lines in all 12 line-ending x indentation-rotation combinations and of 4 lines in 4 (5-line structures take 12 minutes per combination; longer single-line tails were not timed and are not registered)",
         },
         "outside": "documents longer than the line bound; arbitrary bytes beyond the tail bounds; non-ASCII bytes in headline tails and value parts (asserted neither way); tab between value and summary, blanks inside the should-total parentheses, trailing blanks (asserted neither way, see DESIGN appendix); invalid UTF-8 in summaries (file encoding MUST be UTF-8)",
         "stubs": [MODELS["regexp"], MODELS["fmt"], MODELS["utf8"], MODELS["bytealg"], MODELS["builder"]],
@@ -479,7 +479,7 @@ CHECKS = {
         "jobs": c10_jobs,
         "bounds": {
             "quick": "every generated document of 1..4 lines with one injected rule violation (10 fault kinds at every reachable position), parsed serially and with 2-3 workers in every delivery order; terminal rendering compared byte for byte with a rendering built from the reported line / position / length, JSON rendering read back from the emitted text; a malformed entry line followed by 0-4 ARBITRARY bytes through both renderings",
-            "thorough": "5-line documents in one and 4-line documents in three formatting combinations, 1-3 lines in all 12; 6 arbitrary bytes",
+            "thorough": "1-3 line documents in all 12 formatting combinations, 4-line documents in two; 6 arbitrary bytes behind the fault",
         },
         "outside": "longer documents; several independent faults per document (only ordering and per-error validity are asserted for follow-up errors)",
         "stubs": [MODELS["regexp"], MODELS["fmt"], MODELS["utf8"], MODELS["builder"], MODELS["json"]],
@@ -498,14 +498,14 @@ CHECKS = {
     "C03": {
         "jobs": c03_jobs, "asserts": A_C03,
         "bounds": {"quick": "initial files: every conforming 1-2 line document (3-line documents for stop/switch); commands track (3 entry texts incl. two-line summary), create (3 variants), stop/switch (symbolic time, optional summary), pause (one tick, symbolic minutes); no-op reconcile on 1-3 line documents",
-                   "thorough": "3-line documents for track/create, start, pause --extend"},
+                   "thorough": "as quick plus start on every 2-line file in three formatting combinations, track in two more, pause --extend on 3-line files (tab-separated summaries), create in another combination"},
         "outside": "longer files (the splice arithmetic is exercised on every kind sequence up to the bound, not on all file lengths); parameters other than those listed",
         "stubs": MUT_STUBS, "assumptions": MUT_ASSUME,
     },
     "C04": {
         "jobs": c04_jobs, "asserts": A_C04,
         "bounds": {"quick": "one inductive step of every command from every conforming 2-3 line file (the file is the only state and is re-parsed by every command; start with --summary, --resume and --resume-nth 1 / -2), pause for 1 tick with symbolic minutes and 3 ticks with increments {0,1,59,61}, pause --extend on every 3-line file (pause entry before or after the open range), histories of 2-3 commands (track/start/stop) where each output feeds the next",
-                   "thorough": "histories of 3-4 commands, pause --extend, 3-line files for track/create"},
+                   "thorough": "as quick plus start, track and create in further formatting combinations (longer histories were not timed and are not registered)"},
         "outside": "longer histories (covered by the inductive step only), --resume on switch, switch --summary variants",
         "stubs": MUT_STUBS, "assumptions": MUT_ASSUME + ["the abstract model is the generator's denotation of the file (records as lists of (kind, values, summary)), advanced per command in the harness"],
     },
@@ -519,14 +519,14 @@ CHECKS = {
     "C11": {
         "jobs": c11_jobs, "asserts": A_C11,
         "bounds": {"quick": "style election over 2-3 records with every combination of {4 spaces, 2 spaces, tab} x {LF, CRLF} incl. all ties (unanimous style used; otherwise a style some record uses), run twice under every map iteration order; track/create/start on every conforming 2-line file with 3 formatting combinations; notation of generated values (date separator, 12/24-hour clock, dash spacing, placeholder length) for start / start with explicit --time and --date / stop / create / track on files of 0-1 other records plus an optional target record, each record exhibiting every combination of the four notation choices through a duration, range or open-range entry, under no / slash+12h / dash+24h configured preference",
-                   "thorough": "all 12 line-ending x indentation-rotation combinations; notation with 2 other records for start and create (tens of thousands of files per command)"},
+                   "thorough": "all 12 line-ending x indentation-rotation combinations; notation with 2 other records for start (54756 files)"},
         "outside": "notation when the records that exhibit a choice disagree (only determinism is asserted there: the property names no winner); a record whose own entries disagree; times other than 13:05",
         "stubs": MUT_STUBS, "assumptions": MUT_ASSUME,
     },
     "C12": {
         "jobs": c12_jobs,
         "bounds": {"quick": "1-3 records on 8 dates around year / ISO-week-year / leap-day / month boundaries (every choice with repetition, any order; the second record in either date notation), totals symbolic in [-100000,100000], all 5 aggregations, --fill over the spanned range, klog today split; print --with-totals on every conforming generated document of 1-2 lines (prefix column removed = plain print, record line carries the record total, one value per entry, entry values add up); bucket hashes for all field values; week buckets on 1996-2005",
-                   "thorough": "4 records for the week aggregation; week buckets on four decade windows; print --with-totals on 3-line documents"},
+                   "thorough": "week buckets on four decade windows; print --with-totals on 3-line documents"},
         "outside": "the rendered table text (alignment is C18); --decimal / --diff cell formatting; other dates than the boundary set for the composition (the bucket rule itself is proven for all dates in C15)",
         "stubs": [MODELS["sort"], MODELS["tabulate"], MODELS["fmt"]],
         "assumptions": COMMON_ASSUME + ["reference periods of the 8 boundary dates (ISO week-year and week) are written down in the harness from the calendar"],
@@ -534,7 +534,7 @@ CHECKS = {
     "C13": {
         "jobs": c13_jobs,
         "bounds": {"quick": "shortcut filters this/last week, month, quarter, year, --today/--yesterday/--tomorrow and --after/--before for every reference date 2019-2022 against records on the first/last day of the reference period and their neighbours; sort of 1-3 records with symbolic dates (2019-2021, any month, day 1-28) written with either date separator (mixed notations), asc and desc; date clauses (--date, --since, --since+--until) on 1-2 records with symbolic dates; tag clauses (#x, #y, #x=v at record and entry level) x 5 entry types x all entry kinds on 1 record x 2 entries and 2 records x 1 entry",
-                   "thorough": "shortcuts for the reference years 0000-0005, 1998-2003, 9993-9998; all clause kinds combined on one record; 3 entries (2 records x 2 entries = 1.4 million tag / type combinations, sorting 4 records with mixed notations and date clauses on 3 records exceed the time budget and are not registered)"},
+                   "thorough": "shortcuts also for the reference years 0000-0003 and 9995-9998; all clause kinds combined on one record x one entry (larger tag / type products, sorting 4 records with mixed notations and date clauses on 3 records exceed the time budget and are not registered)"},
         "outside": "--period with a literal pattern through ApplyFilter (pattern -> period is C15; period -> since/until is the date-clause path covered here); sort of more than 12 records (pdqsort leaves its insertion-sort regime)",
         "stubs": [MODELS["sort"], MODELS["regexp"]],
         "assumptions": COMMON_ASSUME + ["dates are raw field triples (Filter and Sort only compare year/month/day)"],
@@ -576,7 +576,7 @@ CHECKS = {
         "jobs": c07_jobs,
         "bounds": {
             "quick": "every byte string of length 0..4 x worker counts 1..min(n+2,4) x every order in which the workers can deliver their results (all w! orders); texts of 5-6 lines, each line one of {empty, `a`, `aaa` | `!aa`} x {LF, CRLF}, optionally an unterminated last line, with 2-3 workers (every chunk boundary position relative to blank lines and CR LF pairs in texts up to 31 bytes)",
-            "thorough": "as quick plus every byte string of length 5 with 1-2 workers and of length 4 with 5 workers (120 orders); line-built texts of up to 7 lines with 2, 5 lines with 3 and 4 lines with 4 workers",
+            "thorough": "as quick plus every byte string of length 5 with 1-2 workers; line-built texts of up to 7 lines with 2, 5 lines with 3 and 4 lines with 4 workers",
         },
         "outside": "longer texts and other line contents than those listed (finding F9 needed 13 bytes and was outside the arbitrary-bytes bound until the line-built texts were added); interleavings finer than result delivery (workers share only immutable strings and the result channel: assumed, not shown); the real record parser as ParseOne (the engine is generic: a deterministic stub ParseOne that echoes the block and flags lines starting with `!` is used; composition with the real parse is covered by C01/C10 serial-vs-parallel jobs)",
         "stubs": [MODELS["utf8"], MODELS["bytealg"], "goroutines as coroutines under the engine scheduler; channel receive chooses nondeterministically among pending senders (all orders explored); sync.WaitGroup modelled; math.Ceil on concrete floats"],
@@ -586,7 +586,7 @@ CHECKS = {
         "jobs": c02_jobs,
         "bounds": {
             "quick": "record/entry shapes (records x entries per record) {1x1,1x2,2x1}, every entry kind per slot, should-total present or not; all durations in [-1e9,1e9], all valid (hour,minute,shift) time pairs; --now at every minute of 2020-03-01 against records dated -2..+1 days",
-            "thorough": "shapes up to 3 records / 3 entries",
+            "thorough": "as quick plus the generated documents in a second formatting combination (2x2 and three-fold shapes did not finish within 25 minutes and are not registered)",
         },
         "outside": "more records/entries per evaluation than the bound (the sum is a fold: each step is covered); |minutes| > 1e9 (overflow is C06)",
         "stubs": [MODELS["tabulate"]],
